@@ -299,7 +299,9 @@ func (in *oracleIn) check() (vs []Verdict, stats map[string]int) {
 		tb := in.before.Tables[n]
 		ta := in.after.Tables[n]
 		kind, inSet := in.changed[n]
-		if !refused && in.des.table(n) == nil {
+		// a table the desired schema does not have is dropped by the change set -- unless its changes were excluded
+		// from the set (Case.Exclude, round 5): then it is an untouched table like any other
+		if !refused && in.des.table(n) == nil && inSet {
 			stats["dropped-table"]++
 			continue
 		}
